@@ -303,25 +303,32 @@ class sym_backend(numpy_backend):
         return tensor_in
 
     def percentile(self, tensor_in, q, axis=None, interpolation="linear"):
-        """linear-interpolation percentile on a 1-d symbolic tensor; sorting forks"""
-        a = list(symarr(tensor_in).ravel().view(np.ndarray))
-        if axis not in (None, 0) or interpolation != "linear":
+        """linear-interpolation percentile (flattened, or along axis 0); sorting forks"""
+        if interpolation != "linear" or axis not in (None, 0):
             raise Unsupported("percentile axis/interpolation")
-        a = _fork_sort(a)
-        n = len(a)
+        t = symarr(tensor_in)
         qs = symarr(q)
-        out = []
-        for qq in qs.ravel().view(np.ndarray):
-            pos = SV(qq) / 100 * (n - 1)
-            if not pos.concrete:
-                raise Unsupported("symbolic percentile rank")
-            k = int(pos.v // 1)
-            frac = pos.v - k
-            lo = a[k]
-            hi = a[min(k + 1, n - 1)]
-            out.append(lo + (hi - lo) * frac)
-        r = symarr(out).reshape(qs.shape)
-        return self._out(r)
+        if axis is None or t.ndim == 1:
+            cols = [list(t.ravel().view(np.ndarray))]
+            rest = ()
+        else:
+            rest = t.shape[1:]
+            flat = t.reshape(t.shape[0], -1).view(np.ndarray)
+            cols = [list(flat[:, j]) for j in range(flat.shape[1])]
+        out = np.empty((qs.size, len(cols)), dtype=object)
+        for j, col in enumerate(cols):
+            a = _fork_sort(col)
+            n = len(a)
+            for i, qq in enumerate(qs.ravel().view(np.ndarray)):
+                pos = SV(qq) / 100 * (n - 1)
+                if not pos.concrete:
+                    raise Unsupported("symbolic percentile rank")
+                k = int(pos.v // 1)
+                frac = pos.v - k
+                lo, hi = a[k], a[min(k + 1, n - 1)]
+                out[i, j] = lo + (hi - lo) * frac
+        r = out.reshape(tuple(qs.shape) + tuple(rest)) if rest or qs.shape else out.reshape(())
+        return self._out(symarr(r))
 
     # ---- probability --------------------------------------------------------------------------
     def poisson_logpdf(self, n, lam):
